@@ -15,7 +15,7 @@ LEVEL_TEXT = (
     'because the crash discards them and nothing re-creates them. Reachability of every crash point '
     'is C01 + C04 and is not computed here.')
 
-FLOORS = {'C09-R1': 3, 'C09-R2': 4, 'C09-R3': 3, 'C09-R4': 4}
+FLOORS = {'C09-R1': 3, 'C09-R2': 4, 'C09-R3': 3, 'C09-R4': 4, 'C10-R1': 8}
 
 TRUNCATING = ('Iterator::take', 'Iterator::skip', 'Iterator::step_by', 'Iterator::take_while',
               'Iterator::skip_while', 'Iterator::nth', 'Iterator::last', 'Iterator::next', 'Iterator::find',
@@ -233,3 +233,8 @@ def run(ctx):
         r3_silent(ctx, F)
     with ctx.rule('C09-R4', 'actions'):
         r4_budget(ctx, F)
+    # crash flags must travel with their actor when a state is canonicalised (symmetry reduction)
+    import c10
+    ctx.doc('C10-R1', 'representative(): per-actor vectors (incl. `crashed`) are permuted with reindex under one plan')
+    with ctx.rule('C10-R1', 'representative'):
+        c10.r1_representative(ctx, F)
